@@ -131,18 +131,17 @@ mod ir_builder {
                 }
 
             rule fn_decl() -> IrAstFnDecl
-                = is_public:is_public() _ is_original_entry:is_original_entry() _ is_entry:is_entry() _ is_fallback:is_fallback() _ "fn" _
+                // The printer writes `entry` before `entry_orig`; accept the two markers in either order.
+                = is_public:is_public() _ is_original_entry_before:is_original_entry() _ is_entry:is_entry() _ is_original_entry_after:is_original_entry() _ is_fallback:is_fallback() _ "fn" _
                         name:id() _ selector:selector_id()? _ "(" _
                         args:(block_arg() ** comma()) ")" _ "->" _ ret_type:ast_ty()
                             metadata:comma_metadata_idx()? "{" _
                         locals:fn_local()*
                         blocks:block_decl()*
                     "}" _ {
-                    // TODO: Remove once old decoding is removed.
-                    //       In the case of old decoding, every entry is at the same time an original entry, but in the IR
-                    //       we mark them only as `entry`s so there is a bit of information lost at the roundtrip.
-                    //       Remove this hack to recognize the new encoding once it becomes the only encoding.
-                    let is_original_entry = is_original_entry || (is_entry && !name.starts_with("__entry"));
+                    // See the TODO on old decoding in `IrBuilder::add_fn_decl`, where the
+                    // `is_original_entry` of old-encoding entries is reconstructed.
+                    let is_original_entry = is_original_entry_before || is_original_entry_after;
                     IrAstFnDecl {
                         name,
                         args,
@@ -1253,6 +1252,15 @@ mod ir_builder {
                 })
                 .collect();
             let ret_type = fn_decl.ret_type.to_ir_type(context);
+            // TODO: Remove once old decoding is removed.
+            //       In the case of old decoding, every entry is at the same time an original entry, but in the IR
+            //       we mark them only as `entry`s so there is a bit of information lost at the roundtrip.
+            //       With the new encoding the printer writes `entry_orig` explicitly, and an `entry` that is
+            //       not an original entry (`__entry`, test functions) must stay one.
+            let is_original_entry = fn_decl.is_original_entry
+                || (!context.experimental.new_encoding
+                    && fn_decl.is_entry
+                    && !fn_decl.name.starts_with("__entry"));
             let func = Function::new(
                 context,
                 self.module,
@@ -1263,7 +1271,7 @@ mod ir_builder {
                 fn_decl.selector,
                 fn_decl.is_public,
                 fn_decl.is_entry,
-                fn_decl.is_original_entry,
+                is_original_entry,
                 fn_decl.is_fallback,
                 convert_md_idx(&fn_decl.metadata),
             );
